@@ -241,7 +241,7 @@ func apply(re *coregex.Regex, s step, hs [][]byte) (out string) {
 
 // Programs returns the program list of a tier.
 func Programs(thorough bool) []program {
-	pats := []string{`a*b*c*`, `\bfoo\b`, `ab|cd`, `a.*b`, `(a+)(b+)?`, `(\w+)@(\w+)`, `.`, `([a-z])+[0-9]`, `^(a)(b)?`, `[a-z]+`, `[a-z]+[0-9]+`, `^(\d+|foo|xbar)`, `^/.*\.php$`, `ab$`, `.*\.txt`, `.*\.(txt|log|md)`, `\w+@\w+`, `(?m)^.*\.php`, `foo|bar|baz`, `\d+\.\d+`, `(a|ab)(c|bcd)(d*)`, `(?i)foobar|bazqux`, `x[α-ω]+`, `(a|b)*?c`}
+	pats := []string{`a*b*c*`, `\bfoo\b`, `ab|cd`, `a.*b`, `(a+)(b+)?`, `(\w+)@(\w+)`, `.`, `([a-z])+[0-9]`, `^(a)(b)?`, `[a-z]+`, `[a-z]+[0-9]+`, `^(\d+|foo|xbar)`, `^/.*\.php$`, `ab$`, `.*\.txt`, `.*\.(txt|log|md)`, `\w+@\w+`, `(?m)^.*\.php`, `foo|bar|baz`, `\d+\.\d+`, `(a|ab)(c|bcd)(d*)`, `(?i)foobar|bazqux`, `x[α-ω]+`, `(a|b)*?c`, `(?m)^[a-c]+x`}
 	pats = append(pats, strings.Join(space.GenLiterals(70), "|"))
 	var ps []program
 	for i, p := range pats {
@@ -263,7 +263,7 @@ func haystacks(pattern string) [][]byte {
 		t1 = toks[1]
 	}
 	hs := [][]byte{
-		[]byte(""), []byte(t0), []byte("zz"), []byte(t0 + t1), []byte("z" + t0 + " " + t1 + "z\n" + t0),
+		[]byte(""), []byte(t0), []byte("zz"), []byte(t0 + t1), []byte(t1 + t0 + " " + t1 + t0), []byte("z" + t0 + " " + t1 + "z\n" + t0),
 		[]byte(strings.Repeat(t0+" "+t1+"\n", 12)),                          // longer than any earlier one: forces table regrowth
 		[]byte(strings.Join(toks, "") + "0a1b2c" + strings.Join(toks, " ")), // cache-churning
 	}
@@ -285,7 +285,7 @@ func Plan(prop string, md mode) func(tier string) *harness.Plan {
 		depth, capTrans := 3, 2500
 		budget := 150 * time.Second
 		if thorough {
-			depth, capTrans, budget = 5, 60000, 40*time.Minute
+			depth, capTrans, budget = 5, 60000, 25*time.Minute
 		}
 		nAlloc := 0
 		if md == ModeMemory {
